@@ -200,7 +200,11 @@ func runHistory(c lcase, rep int) map[string]any {
 	if err != nil {
 		return map[string]any{"error": err.Error()}
 	}
-	defer lb.Stop()
+	defer func() {
+		if atomic.LoadInt32(&wedged) == 0 {
+			lb.Stop()
+		}
+	}()
 	w := &world{lb: lb}
 	w.admin = adminapi.NewMux(lb, cfg, lb.GetMetricsCollector())
 	var mu sync.Mutex
@@ -238,7 +242,24 @@ func runHistory(c lcase, rep int) map[string]any {
 		}(cl)
 	}
 	close(start)
-	wg.Wait()
+	// the operations are a handful of in-memory calls and loopback exchanges: one that has not returned after
+	// 20 s never will (the balancer is wedged); the history is reported as stuck and the run ends
+	fin := make(chan struct{})
+	go func() { wg.Wait(); close(fin) }()
+	select {
+	case <-fin:
+	case <-time.After(20 * time.Second):
+		atomic.StoreInt32(&wedged, 1)
+		mu.Lock()
+		part := append([]op{}, ops...)
+		mu.Unlock()
+		for i := range part {
+			if part[i].Items == nil {
+				part[i].Items = []item{}
+			}
+		}
+		return map[string]any{"init": init, "ops": part, "stuck": true}
+	}
 	// the state every linearization must end in
 	ops = append(ops, w.do(op{K: "list"}, 0))
 	// canonical form: instants -> ranks, operations ordered by invocation
@@ -255,8 +276,10 @@ func runHistory(c lcase, rep int) map[string]any {
 		ops[i].Inv, ops[i].Ret = rank[ops[i].Inv], rank[ops[i].Ret]
 	}
 	sort.Slice(ops, func(i, j int) bool { return ops[i].Inv < ops[j].Inv })
-	return map[string]any{"init": init, "ops": ops}
+	return map[string]any{"init": init, "ops": ops, "stuck": false}
 }
+
+var wedged int32
 
 func main() {
 	casesPath, outPath := os.Args[1], os.Args[2]
@@ -294,12 +317,12 @@ func main() {
 			defer wg.Done()
 			for {
 				i := atomic.AddInt64(&idx, 1)
-				if i >= int64(len(cs)) {
+				if i >= int64(len(cs)) || atomic.LoadInt32(&wedged) == 1 {
 					return
 				}
 				var c lcase
 				json.Unmarshal(cs[i], &c)
-				for rep := 0; rep < reps; rep++ {
+				for rep := 0; rep < reps && atomic.LoadInt32(&wedged) == 0; rep++ {
 					o := runHistory(c, rep)
 					ob, _ := json.Marshal(o)
 					key := string(cs[i]) + "|" + string(ob)
@@ -320,6 +343,6 @@ func main() {
 	wg.Wait()
 	bw.Flush()
 	out.Close()
-	st, _ := json.Marshal(map[string]any{"histories": histories, "distinct": distinct, "seconds": time.Since(t0).Seconds()})
+	st, _ := json.Marshal(map[string]any{"histories": histories, "distinct": distinct, "seconds": time.Since(t0).Seconds(), "stuck": atomic.LoadInt32(&wedged)})
 	os.WriteFile(outPath+".ok", st, 0o644)
 }
